@@ -1188,7 +1188,8 @@ class CircuitTemplate(AbstractBaseTemplate):
 
         else:
 
-            outputs = self._relabel_var(outputs, self._vectorization_labels)
+            # resolve the requested nodes from the frontend path; relabelling to backend (vectorized) names happens
+            # per node below, it must not be applied before the path has been resolved
             *out_nodes, out_op, out_var = outputs.split('/')
             target_nodes = self.get_nodes(out_nodes, var_identifier=(out_op, out_var))
 
